@@ -12,6 +12,7 @@ package c12
 
 import (
 	"fmt"
+	"os"
 	"strconv"
 	"strings"
 
@@ -64,18 +65,22 @@ func upto(n int) []int {
 // Run is the check.
 func Run(c *vk.Ctx) {
 	full := family{name: "full", layouts: upto(nLayouts), flags: upto(nFlags), pres: upto(nPre), nms: upto(len(names)), src: upto(nSrc), bound: 2}
-	deep := family{name: "deep", layouts: upto(nLayouts), flags: upto(nFlags), pres: []int{0, 1, 2}, nms: []int{3}, src: []int{1, 2}, bound: 3}
+	fams := []family{full,
+		{name: "deep", layouts: upto(nLayouts), flags: upto(nFlags), pres: []int{0, 1, 2}, nms: []int{3}, src: []int{1, 2}, bound: 3}}
 	if c.Thorough() {
-		full.bound = 3
-		deep = family{name: "deep", layouts: upto(nLayouts), flags: upto(nFlags), pres: []int{0, 1, 2, 4}, nms: []int{1, 3}, src: []int{1, 2}, bound: 4}
+		fams = []family{full,
+			{name: "wide", layouts: upto(nLayouts), flags: upto(nFlags), pres: upto(nPre), nms: []int{0, 3}, src: upto(nSrc), bound: 3},
+			{name: "deep", layouts: upto(nLayouts), flags: upto(nFlags), pres: []int{0, 1, 2, 4}, nms: []int{1, 3}, src: []int{1, 2}, bound: 4}}
 	}
-	fams := []family{full, deep}
 	for _, f := range fams {
 		c.Note(fmt.Sprintf("family %s: %d layouts x %d flag patterns x %d function tables x %d name rotations x %d source maps x %d modes; every plug-in answer sequence with <= %d non-default answers (Open: %d answers, SourceLine: %d, symbolz POST: %d)",
 			f.name, len(f.layouts), len(f.flags), len(f.pres), len(f.nms), len(f.src), len(modes), f.bound, len(altNames[kOpen]), len(altNames[kSourceLine]), len(altNames[kPost])))
 	}
 	var idx int64
 	for _, f := range fams {
+		if os.Getenv("VERIF_C12_ONLY") == "e2e" { // development aid: time one part alone
+			break
+		}
 		for _, la := range f.layouts {
 			for _, pre := range f.pres {
 				for _, fl := range f.flags {
@@ -100,8 +105,15 @@ func Run(c *vk.Ctx) {
 			}
 		}
 	}
-	e2e(c, idx)
-	guards(c)
+	if os.Getenv("VERIF_C12_ONLY") == "direct" {
+		guards(c)
+		return
+	}
+	idx = e2e(c, idx)
+	soup(c, idx)
+	if os.Getenv("VERIF_C12_ONLY") == "" {
+		guards(c)
+	}
 }
 
 func guards(c *vk.Ctx) {
@@ -111,7 +123,7 @@ func guards(c *vk.Ctx) {
 	for _, k := range []string{
 		"attached/local", "attached/remote", "error-returned", "untouched-mappings-checked",
 		"sparse-ids/no-collision", "names/changed-by-demangling", "answers/failure", "forced-resymbolization",
-		"lines-replaced-on-symbolized-location",
+		"lines-replaced-on-symbolized-location", "names/brackets/rewritten", "names/mangled/rewritten",
 	} {
 		if c.Counter(k) == 0 {
 			c.Vacuous("no execution with " + k)
